@@ -13,7 +13,7 @@ SPEC = "crypto"
 def parallel_replay(ctx, subcmd, rows, name, parts=8, extra_args=None):
     """Split the rows over several harness processes; merges the action histograms."""
     rows = list(rows)
-    n = max(1, min(parts, len(rows) // 50 or 1))
+    n = max(1, min(parts, len(rows) // (4 if subcmd == "c12-replay" else 50) or 1))
     chunks = [rows[i::n] for i in range(n)]
     def one(iv):
         i, part = iv
@@ -156,7 +156,57 @@ def run_c19(ctx):
                         "keys are fixed pseudo-random keys (seeded); messages are three byte strings (empty, short, 300 bytes)"]
 
 
-RUNNERS = {"C20": run_c20, "C19": run_c19}
+def run_c12(ctx):
+    quick = ctx.tier == "quick"
+    ctx.tlc(SPEC, "EncAmount.tla", "EncAmount.cfg", workers=8, timeout=3000)
+    ctx.tlc(SPEC, "EncAmount.tla", "EncAmount_big.cfg", workers=8, timeout=3000)
+    ctx.exhaustive = True
+    rows = []
+    for r in ctx.tlc_parallel_sim(SPEC, "EncAmount.tla", "EncAmount_sim.cfg", "encamount_sim", 1200 if quick else 12000, 6, procs=4):
+        rows += [json.loads(x) for x in r.replays]
+    # scenarios with at least one transfer that goes through; the chunk boundaries come from the embedding of model amounts
+    good = [r for r in rows if any(o["op"] != "deposit" and o["ok"] for o in r["ops"])]
+    seen = set()
+    uniq = []
+    for r in good:
+        k = json.dumps(r["ops"], sort_keys=True)
+        if k not in seen:
+            seen.add(k)
+            uniq.append(r)
+    uniq = uniq[: (36 if quick else 600)]
+    # deposits only (fast): aggregation and decryption over all model amounts
+    dep = [r for r in rows if all(o["op"] == "deposit" or not o["ok"] for o in r["ops"])][: (60 if quick else 600)]
+    allrows = []
+    for i, r in enumerate(uniq + dep):
+        r = dict(r, idx=i)
+        allrows.append(json.dumps(r))
+    hist, bad = parallel_replay(ctx, "c12-replay", allrows, "c12", parts=14)
+    # parallel_replay only splits lists of >= 50 rows per part; rows are few but slow, so split finer
+    ctx.extra["row_histogram"] = hist
+    need = {"deposit": 60, "transfer:true": 8, "transfer:false": 5, "sec_to_pub:true": 8, "transfer_tamper": 60, "sec_to_pub_tamper": 40}
+    for k, v in need.items():
+        if hist.get(k, 0) < v:
+            raise ToolError("vacuous C12 run: %s = %s (< %s)" % (k, hist.get(k, 0), v))
+    # canary: a scenario whose specification verdict is flipped must be flagged
+    c = {"kind": "enc_amount", "w": 2, "idx": 0, "fields": ["none"], "s2p_fields": ["none"],
+         "ops": [{"op": "deposit", "a": 3, "lo": 3, "hi": 0, "decryptable": True, "plain": 3}, {"op": "sec_to_pub", "a": 9, "ok": True, "remaining": 0, "transferred": 0, "before": 3}]}
+    inp = os.path.join(ctx.work, "canary.ndjson")
+    outp = os.path.join(ctx.work, "canary.res")
+    write_ndjson(inp, [c])
+    ctx.harness("base", ["c12-replay", inp, outp])
+    if not [x for x in read_ndjson(outp) if not x.get("summary")]:
+        raise ToolError("canary: flipped overdraft verdict not flagged")
+    ctx.extra["canary"] = "flipped overdraft verdict flagged"
+    ctx.rule = ("EncAmount.tla model-checked for all amounts at chunk width 2 (exhaustive over 3 operations) and 3 (state graph): chunk sums denote the balance, decryption inverts encryption, "
+                "conservation, no overdraft. Random behaviours of 4 operations (deposits aggregated, encrypted transfers, transfers to public) are replayed with amounts embedded chunk-wise "
+                "into u64 (0, 1, 2^32-2, 2^32-1 per chunk): decrypt(encrypt) and decrypt(aggregate), existence of a transfer iff amount <= balance, verification, conservation via decryption, "
+                "and rejection under each of the tamper fields of the specification; distinct = distinct scenarios")
+    ctx.assumptions += ["expected values are computed by the harness from the rules that TLC checks on the scaled model (the chunk-wise embedding is not additive)",
+                        "the index is not part of the proof: tampering with it is modelled as the verifier aggregating one more incoming amount into the balance (documented design of the code)",
+                        "chunk sums beyond 2^33 are outside the property (decryption by table lookup)"]
+
+
+RUNNERS = {"C20": run_c20, "C19": run_c19, "C12": run_c12}
 
 
 def run(ctx):
